@@ -362,17 +362,17 @@ PROPS["C14"] = {
 # ---------------------------------------------------------------- C15
 _RATES = [8000, 16000, 44100, 48000, 90000]
 PROPS["C15"] = {
-    "level_text": 'Pure arithmetic obligations on the real code: (1) globalDecoderTrackData.decode is the 64-bit continuation of the 32-bit RTP timestamp for K=4 (quick) / 8 (thorough) arbitrary steps |step|<2^31 from any start; (2) multiplyAndDivide(v,m,d) equals floor(v*m/d) by its 128-bit defining property for all 0<=v<2^62 whose result fits int63, for every pair of clock rates in use and 10^9; (3) GlobalDecoder.Decode places a later track at startPTS*rate/leadRate+elapsed*rate/1e9 (all instants, rates from the set); (4) ntp.Decode(ntp.Encode(t)) is within 1 ns of t for every nanosecond of NTP era 0 after 1970; (5) Receiver.packetNTPUnsafe adds exactly trunc(delta*1e9/rate) for every signed 32-bit delta with no 64-bit overflow; (6) Receiver: after any sequence of sender reports (clock stepping in either direction, reliable or not) the mapping is anchored to the last report; (7) rtpsender: after any series of packets flagged PTS==DTS or not, the sender report pairs the RTP timestamp and the absolute time of one and the same (the last flagged) packet, with exact packet/octet counts (clock frozen, so no extrapolation term). Multiplication/division kernels are decided by cvc5 with the bit-vector-as-integer encoding; floating point by the ideal-arithmetic over-approximation (fpreal.go).',
+    "level_text": 'Pure arithmetic obligations on the real code: (1) globalDecoderTrackData.decode is the 64-bit continuation of the 32-bit RTP timestamp for K=4 (quick) / 8 (thorough) arbitrary steps |step|<2^31 from any start; (2) multiplyAndDivide(v,m,d) equals floor(v*m/d) by its 128-bit defining property for all 0<=v<2^62 whose result fits int63, for every pair of clock rates in use and 10^9; (3) GlobalDecoder.Decode places a later track at startPTS*rate/leadRate+elapsed*rate/1e9 (all instants; every leading-track step < 2^31 for 90000->48000, a fixed step for the other rate pairs; also with a non-reference packet of the leading track in between); (4) ntp.Decode(ntp.Encode(t)) is within 1 ns of t for every nanosecond of NTP era 0 after 1970; (5) Receiver.packetNTPUnsafe adds exactly trunc(delta*1e9/rate) for every signed 32-bit delta with no 64-bit overflow; (6) Receiver: after any sequence of sender reports (clock stepping in either direction, reliable or not) the mapping is anchored to the last report; (7) rtpsender: after any series of packets flagged PTS==DTS or not, the sender report pairs the RTP timestamp and the absolute time of one and the same (the last flagged) packet, with exact packet/octet counts (clock frozen, so no extrapolation term). Multiplication/division kernels are decided by cvc5 with the bit-vector-as-integer encoding; floating point by the ideal-arithmetic over-approximation (fpreal.go).',
     "level_note": "Trusted: IEEE-754 round-to-nearest error bound 2^-53 per operation for normal non-overflowing results (the float64 abstraction), contract-level model of time.Time.Add/Sub on wall-clock instants (exact within |d|<2^62, |sec difference|<2^33), cvc5 1.0.3's integer encoding. Not covered: arbitrary clock rates outside the listed set, rtpsender.Sender.report's float64->uint32 conversion (implementation-defined when out of range), NTP era roll-over in 2036.",
     "runs": [
         R("continuation", "pkg/rtptime", "pkg/rtptime", ["ZzC15Continuation"], flags={"workers": 2}, quick_params={"K": 4}, thorough_params={"K": 8}),
     ] + [
-        R("muldiv-%d-%d" % (m, d), "pkg/rtptime", "pkg/rtptime", ["ZzC15MulDiv"], params={"M": m, "D": d},
+        R("muldiv-%d-%d" % (m, d), "pkg/rtptime", "pkg/rtptime", ["ZzC15MulDiv"], params=dict({"M": m, "D": d}, **({"NOTWIN": 1} if (m, d) in [(44100, 1000000000), (48000, 1000000000)] else {})),
           flags={"solver": "cvc5-int", "workers": 1, "qtimeout": 120000},
           tiers=("quick", "thorough") if (m, d) in [(90000, 1000000000), (48000, 90000), (90000, 48000), (8000, 1000000000), (44100, 90000)] else ("thorough",))
         for m in _RATES for d in _RATES + [1000000000] if m != d
     ] + [
-        R("latertrack-%d-%d" % (a, b), "pkg/rtptime", "pkg/rtptime", ["ZzC15LaterTrack"], params={"R1": a, "R2": b},
+        R("latertrack-%d-%d" % (a, b), "pkg/rtptime", "pkg/rtptime", ["ZzC15LaterTrack"], params=dict({"R1": a, "R2": b}, **({} if (a, b) == (90000, 48000) else {"FIXDELTA": 1})),
           flags={"solver": "cvc5-int", "workers": 2, "qtimeout": 120000},
           tiers=("quick", "thorough") if (a, b) == (90000, 48000) else ("thorough",))
         for (a, b) in [(90000, 48000), (48000, 90000), (90000, 8000), (44100, 90000)]
